@@ -9,10 +9,11 @@ LEVEL_TEXT += (" BLAKE2b and SipHash (E2 irsym): crypto_generichash(_blake2b) on
                "compared bit for bit with RFC 7693 / SipHash specification models over one shared bit-level graph (modular sums canonicalised); "
                "out-of-range output/key lengths must be refused.")
 E2_EQUIV = ["blake2b-ref-spec", "siphash-ref-spec"]
+E2_LIMB = ["poly1305-blocks-donna64"]
 TRUSTED = ["CBMC 6.11 + cvc5 1.0", "irsym LLVM-IR interpreter; BLAKE2b spec model validated against Python hashlib, SipHash against the paper's vector (development) and by structural agreement with the reference unit", "spec models in models/ (validated against FIPS/RFC vectors by bin/setup)",
            "composition: padding/chunking over an abstract compression function + compression function == spec => hash == spec"]
 ASSUMPTIONS = ["message lengths in the enumerated sets"]
-OUTSIDE = ["Poly1305 block multiplication (h + m) * r mod 2^130-5 (symbolic multiplication: no back end decides it; buffering, padding, clamping, final reduction and verify ARE covered)", "poly1305_sse2.c",
+OUTSIDE = ["poly1305_sse2.c block arithmetic (the donna unit is decided end to end: buffering/padding/clamping/verify (CBMC), block multiplication mod 2^130-5 (E2 limb mode), final reduction (CBMC))", "poly1305_sse2.c",
            "messages longer than the bounds / other split points", "SIMD BLAKE2b compression units vs the reference unit: under C10 (E2, thorough tier)"]
 
 
